@@ -34,7 +34,7 @@ def main():
     # the two translators are independent: run them side by side
     pc = subprocess.Popen([sys.executable, os.path.join(VERIF, "translators", "c19_c", "gen_c.py"), repo, VERIF, work, stage],
                           stdout=subprocess.PIPE, stderr=subprocess.STDOUT)
-    pg = subprocess.Popen(["go", "run", "main.go", repo, work, stage], cwd=os.path.join(VERIF, "translators", "c19_go"), env=env,
+    pg = subprocess.Popen(["go", "run", "main.go", "sites.go", repo, work, stage], cwd=os.path.join(VERIF, "translators", "c19_go"), env=env,
                           stdout=subprocess.PIPE, stderr=subprocess.STDOUT)
     oc, og = pc.communicate()[0], pg.communicate()[0]
     print(oc.decode().strip())
